@@ -3,6 +3,7 @@ package main
 // Translation of contract expressions to SMT terms.
 
 import (
+	"golang.org/x/tools/go/ssa"
 	"fmt"
 	"go/types"
 	"sort"
@@ -909,6 +910,30 @@ func (env *TEnv) modTargets(e Expr) ([]modTarget, error) {
 			}
 			kv, kd, kl := vc.mapKeys(mt)
 			return []modTarget{{key: kv, idx: a.T}, {key: kd, idx: a.T}, {key: kl, idx: a.T}}, nil
+		case "cell": // cell(v): the cell of a local variable v that lives on the heap (captured by a closure), or of a free variable of this closure
+			id, ok := x.Args[0].(*EIdent)
+			if !ok || env.f == nil {
+				return nil, fmt.Errorf("cell(variable)")
+			}
+			for _, fv := range env.f.fn.FreeVars {
+				if fv.Name() == id.Name {
+					if t, ok := env.f.vals[fv]; ok {
+						if pt, _ := fv.Type().Underlying().(*types.Pointer); pt != nil {
+							return []modTarget{{key: vc.cellKey(pt.Elem()), idx: t}}, nil
+						}
+					}
+				}
+			}
+			for _, b := range env.f.fn.Blocks {
+				for _, in := range b.Instrs {
+					if a, ok := in.(*ssa.Alloc); ok && a.Heap && a.Comment == id.Name {
+						if t, ok := env.f.vals[a]; ok {
+							return []modTarget{{key: vc.cellKey(a.Type().Underlying().(*types.Pointer).Elem()), idx: t}}, nil
+						}
+					}
+				}
+			}
+			return nil, fmt.Errorf("cell(%s): no such heap-allocated variable", id.Name)
 		case "elems": // slice elements (whole backing array)
 			a, err := env.tr(x.Args[0])
 			if err != nil {
